@@ -220,9 +220,20 @@ package vm
 //@ callsite (*runInfoStruct).runForSliceStmt * [C04] childscope: fresh(runInfo.env) && runInfo.env.parent == old(runInfo.env)
 //@ callsite (*runInfoStruct).runForMapStmt * [C04] childscope: fresh(runInfo.env) && runInfo.env.parent == old(runInfo.env)
 //@ callsite (*runInfoStruct).runForChanStmt * [C04] childscope: fresh(runInfo.env) && runInfo.env.parent == old(runInfo.env)
+// C20/C08: what is iterated is decided by the value the operand DENOTES (unwrap(operand): a value read from an interface-typed
+// element or result behaves like the same value in a variable), nothing else is stripped from it: slices and arrays are
+// iterated as lists, maps by key, channels by receiving, anything else (a pointer included) is an error - and the outcome of
+// the chosen loop is the outcome of the statement
+//@ traces runForSliceStmt runForMapStmt runForChanStmt
+//@ ensures [C20 C08] operand: ncalls() >= 1 && calleeIs(0, "invokeExpr") && arg(0) == stmt.Value && (res(0) != nil ==> ncalls() == 1 && runInfo.err == res(0))
+//@ ensures [C20 C08] list: ncalls() >= 1 && res(0) == nil && (rvKind(unwrap(res2(0))) == reflect.Slice || rvKind(unwrap(res2(0))) == reflect.Array) ==> ncalls() == 2 && calleeIs(1, "runForSliceStmt") && arg(1) == unwrap(res2(0)) && runInfo.err == res(1)
+//@ ensures [C20 C08] map: ncalls() >= 1 && res(0) == nil && rvKind(unwrap(res2(0))) == reflect.Map ==> ncalls() == 2 && calleeIs(1, "runForMapStmt") && arg(1) == unwrap(res2(0)) && runInfo.err == res(1)
+//@ ensures [C20 C08 C16] chan: ncalls() >= 1 && res(0) == nil && rvKind(unwrap(res2(0))) == reflect.Chan ==> ncalls() == 2 && calleeIs(1, "runForChanStmt") && arg(1) == unwrap(res2(0)) && runInfo.err == res(1)
+//@ ensures [C20 C08] notiterable: ncalls() >= 1 && res(0) == nil && rvKind(unwrap(res2(0))) != reflect.Slice && rvKind(unwrap(res2(0))) != reflect.Array && rvKind(unwrap(res2(0))) != reflect.Map && rvKind(unwrap(res2(0))) != reflect.Chan ==> ncalls() == 1 && runInfo.err != nil
 
 //@ func (*runInfoStruct).runForSliceStmt
 //@ props C04 C08 C02
+//@ traced_optin value -> runInfo.err; runInfo.rv
 //@ like template.loopStmt
 //@ requires stmt != nil
 //@ loop 0 invariant actInv(runInfo) && runInfo.err == nil
@@ -241,6 +252,7 @@ package vm
 
 //@ func (*runInfoStruct).runForMapStmt
 //@ props C04 C08 C02
+//@ traced_optin value -> runInfo.err; runInfo.rv
 //@ like template.loopStmt
 //@ requires stmt != nil
 //@ loop 0 invariant actInv(runInfo) && runInfo.err == nil
@@ -259,6 +271,7 @@ package vm
 
 //@ func (*runInfoStruct).runForChanStmt
 //@ props C04 C08 C02
+//@ traced_optin value -> runInfo.err; runInfo.rv
 //@ like template.loopStmt
 //@ requires stmt != nil
 //@ loop 0 invariant actInv(runInfo) && runInfo.err == nil
@@ -384,8 +397,12 @@ package vm
 //@ ensures [C08] nosentinel: runInfo.err != ErrBreak && runInfo.err != ErrContinue && runInfo.err != ErrReturn
 // C10: delete(m, k) removes exactly the (converted, hashable) key from the map m denotes; a key that cannot be converted or
 // hashed is an error and the map is not written
-//@ traces (reflect.Value).SetMapIndex
+//@ traces (reflect.Value).SetMapIndex convertReflectValueToType
 //@ ensures [C10] untouched: runInfo.err != nil ==> (forall k int :: 0 <= k && k < ncalls() ==> !calleeIs(k, "(reflect.Value).SetMapIndex"))
+// ... for every map that exists (non-nil), empty or not: the key is converted to the map's key type and checked, a key that
+// cannot be converted or hashed IS an error, and a good key is deleted by exactly one SetMapIndex(key, invalid)
+//@ ensures [C10 C07] operands: ncalls() >= 1 && calleeIs(0, "invokeExpr") && arg(0) == stmt.Item && (res(0) == nil && stmt.Key != nil ==> ncalls() >= 2 && calleeIs(1, "invokeExpr") && arg(1) == stmt.Key)
+//@ ensures [C10] keychecked: stmt.Key != nil && ncalls() >= 2 && res(0) == nil && res(1) == nil && rvKind(unwrap(res2(0))) == reflect.Map && !rvIsNil(unwrap(res2(0))) ==> ncalls() >= 3 && calleeIs(2, "convertReflectValueToType") && arg(2) == res2(1) && res3(2) == typeKey(rvTypeOf(unwrap(res2(0)))) && ((res(2) != nil || !hashableKey(res2(2))) ==> runInfo.err != nil && ncalls() == 3) && (res(2) == nil && hashableKey(res2(2)) ==> runInfo.err == nil && ncalls() == 4 && calleeIs(3, "(reflect.Value).SetMapIndex") && arg(3) == unwrap(res2(0)) && res(3) == res2(2) && !rvValid(res2(3)))
 //@ ensures [C10 C20] deleted: (forall k int :: 0 <= k && k < ncalls() && calleeIs(k, "(reflect.Value).SetMapIndex") ==> arg(k) == unwrap(res2(0)) && hashableKey(res(k)) && !rvValid(res2(k)))
 
 //@ func (*runInfoStruct).runCloseStmt
@@ -481,6 +498,65 @@ package vm
 //@ callsite (*runInfoStruct).runSingleStmt * [C04] freshscope: fresh(arg0.env) && arg0.env.parent == envFunc && arg0.stmt == funcExpr.Stmt && arg0.options == options && arg0.ctx == ctx
 //@ callsite (*Env).DefineValue * [C04] paramscope: fresh(arg0) && arg0.parent == envFunc && arg2 == args[i]
 //@ loop 0 invariant runInfo.env != nil && polls == old(polls) && fired == old(fired) && fresh(runInfo.env) && runInfo.env.parent == envFunc
+
+
+// The fixed-arity wrappers (0..4 parameters) and the reflect.MakeFunc translator (5+ parameters, variadic) around the body
+// runner: each one runs the body exactly once, under the context IT WAS CALLED WITH (C02: the caller's context is threaded into
+// every script-function call, whatever the arity - never the context of the run that defined the function), with exactly the
+// argument values it received, in order (C11), and returns the body runner's (value, error) pair.
+//@ func (*runInfoStruct).funcExpr$2
+//@ props C02 C11 C04
+//@ like template.vmfunc
+//@ captures fn: runVMFunc != nil
+//@ requires ctx != nil
+//@ traces "func:func(ctx context.Context, args []reflect.Value) (reflect.Value, reflect.Value)"
+//@ ensures [C02 C11] threads: ncalls() == 1 && calleeIs(0, "func:func(ctx context.Context, args []reflect.Value) (reflect.Value, reflect.Value)") && arg(0) == ctx && result.0 == res2(0) && result.1 == res(0)
+//@ callsite "func:func(ctx context.Context, args []reflect.Value) (reflect.Value, reflect.Value)" * [C11] args: len(callarg1) == 0
+//@ func (*runInfoStruct).funcExpr$3
+//@ props C02 C11 C04
+//@ like template.vmfunc
+//@ captures fn: runVMFunc != nil
+//@ requires ctx != nil
+//@ traces "func:func(ctx context.Context, args []reflect.Value) (reflect.Value, reflect.Value)"
+//@ ensures [C02 C11] threads: ncalls() == 1 && calleeIs(0, "func:func(ctx context.Context, args []reflect.Value) (reflect.Value, reflect.Value)") && arg(0) == ctx && result.0 == res2(0) && result.1 == res(0)
+//@ callsite "func:func(ctx context.Context, args []reflect.Value) (reflect.Value, reflect.Value)" * [C11] args: len(callarg1) == 1 && callarg1[0] == arg0
+//@ func (*runInfoStruct).funcExpr$4
+//@ props C02 C11 C04
+//@ like template.vmfunc
+//@ captures fn: runVMFunc != nil
+//@ requires ctx != nil
+//@ traces "func:func(ctx context.Context, args []reflect.Value) (reflect.Value, reflect.Value)"
+//@ ensures [C02 C11] threads: ncalls() == 1 && calleeIs(0, "func:func(ctx context.Context, args []reflect.Value) (reflect.Value, reflect.Value)") && arg(0) == ctx && result.0 == res2(0) && result.1 == res(0)
+//@ callsite "func:func(ctx context.Context, args []reflect.Value) (reflect.Value, reflect.Value)" * [C11] args: len(callarg1) == 2 && callarg1[0] == arg0 && callarg1[1] == arg1
+//@ func (*runInfoStruct).funcExpr$5
+//@ props C02 C11 C04
+//@ like template.vmfunc
+//@ captures fn: runVMFunc != nil
+//@ requires ctx != nil
+//@ traces "func:func(ctx context.Context, args []reflect.Value) (reflect.Value, reflect.Value)"
+//@ ensures [C02 C11] threads: ncalls() == 1 && calleeIs(0, "func:func(ctx context.Context, args []reflect.Value) (reflect.Value, reflect.Value)") && arg(0) == ctx && result.0 == res2(0) && result.1 == res(0)
+//@ callsite "func:func(ctx context.Context, args []reflect.Value) (reflect.Value, reflect.Value)" * [C11] args: len(callarg1) == 3 && callarg1[0] == arg0 && callarg1[1] == arg1 && callarg1[2] == arg2
+//@ func (*runInfoStruct).funcExpr$6
+//@ props C02 C11 C04
+//@ like template.vmfunc
+//@ captures fn: runVMFunc != nil
+//@ requires ctx != nil
+//@ traces "func:func(ctx context.Context, args []reflect.Value) (reflect.Value, reflect.Value)"
+//@ ensures [C02 C11] threads: ncalls() == 1 && calleeIs(0, "func:func(ctx context.Context, args []reflect.Value) (reflect.Value, reflect.Value)") && arg(0) == ctx && result.0 == res2(0) && result.1 == res(0)
+//@ callsite "func:func(ctx context.Context, args []reflect.Value) (reflect.Value, reflect.Value)" * [C11] args: len(callarg1) == 4 && callarg1[0] == arg0 && callarg1[1] == arg1 && callarg1[2] == arg2 && callarg1[3] == arg3
+//@ func (*runInfoStruct).funcExpr$7
+//@ props C02 C11 C04
+//@ modifies polls, fired, heap("MV:Int:Int"), heap("MP:Int"), heap("env.Env.values"), heap("env.Env.types"), heap("ast.Position.Line"), heap("ast.Position.Column")
+//@ may_panic
+//@ captures fn: runVMFunc != nil && funcExpr != nil
+// ASSUMPTION (reflect.MakeFunc protocol): the translator is called by reflect with one valid Value per parameter of the function
+// type built by funcExpr: the context, then one reflect.Value (boxed) per parameter, the last one unboxed when variadic
+//@ requires [C01] makefunc: len(in) == len(funcExpr.Params) + 1 && (forall k int :: 0 <= k && k < len(in) ==> rvValid(in[k])) && implements(rvIface(in[0]), "context.Context") && (forall k int :: 1 <= k && k < len(in) && !(funcExpr.VarArg && k == len(in) - 1) ==> typeis(rvIface(in[k]), "reflect.Value"))
+//@ traces "func:func(ctx context.Context, args []reflect.Value) (reflect.Value, reflect.Value)"
+//@ ensures [C02] pollsmono: polls >= old(polls)
+//@ ensures [C02 C11] threads: ncalls() == 1 && calleeIs(0, "func:func(ctx context.Context, args []reflect.Value) (reflect.Value, reflect.Value)") && arg(0) == rvIface(in[0])
+//@ callsite "func:func(ctx context.Context, args []reflect.Value) (reflect.Value, reflect.Value)" * [C11] args: len(callarg1) == len(funcExpr.Params) && (forall k int :: 0 <= k && k < len(funcExpr.Params) - 1 ==> callarg1[k] == as(rvIface(in[k+1]), "reflect.Value")) && (len(funcExpr.Params) > 0 && funcExpr.VarArg ==> callarg1[len(funcExpr.Params)-1] == in[len(funcExpr.Params)]) && (len(funcExpr.Params) > 0 && !funcExpr.VarArg ==> callarg1[len(funcExpr.Params)-1] == as(rvIface(in[len(funcExpr.Params)]), "reflect.Value"))
+//@ loop 0 invariant ncalls() == 0 && polls == old(polls) && fired == old(fired) && len(args) == len(funcExpr.Params) && fresh(base(args)) && 0 <= i && (forall k int :: 0 <= k && k < i ==> args[k] == as(rvIface(in[k+1]), "reflect.Value"))
 
 // ---------------------------------------------------------------------------
 // public entry points
